@@ -380,7 +380,9 @@ def report(rep, script, status, ev, verdict, stats):
             if prior:
                 cmd = prior[-1][1]["command"]
                 st = state_of(ev, prior[-1][0])
-        rep.mismatch(cls, action, command=cmd, state=st, property_clause=PROP_OF.get(cls, "EventsOnceAndCausal"),
+        # defect (a) can only show once a forwarder has taken a sequence number
+        fwd_active = any(e["ev"] == "sched" and e.get("p") in ("fout", "ferr") for e in ev[:(at or 0) + 1])
+        rep.mismatch(cls, action, command=cmd, state=st, fwd_active=fwd_active, property_clause=PROP_OF.get(cls, "EventsOnceAndCausal"),
                      expected="reference (DapWire monitor) holds at every step of the recorded session",
                      actual=f"{cls} at trace event {at}: {json.dumps(ev[at])[:240] if at is not None else ''}",
                      model_bound=verdict["bound"], script=short)
